@@ -215,6 +215,28 @@ Definition oobs_ok (g : ogst) (o : otrace) : bool :=
   && el_eqb (obj_select_distance g) (ot_seld o)
   && o_ok (sst g).
 
+(* everything except get_select_distance() (which reads selected_idx_, truncated by the known
+   GreedySelector defect after a score-threshold stop); [ot_sel] is then the order of the calls of
+   _update_post_selection recorded by a harness-side wrapper *)
+Definition oobs_core_ok (g : ogst) (o : otrace) : bool :=
+  nl_eqb (sel g) (ot_sel o) && nl_eqb (o_sel (sst g)) (ot_sel o)
+  && zm_eqb (xsel g) (ot_xsel o) && zm_eqb (o_xs (sst g)) (ot_xsel o)
+  && zl_eqb (o_norms (sst g)) (ot_norms o)
+  && el_eqb (o_haus (sst g)) (ot_haus o) && el_eqb (o_hsel (sst g)) (ot_hsel o)
+  && nl_eqb (o_vloc (sst g)) (ot_vloc o)
+  && zl_eqb (o_dsl (sst g)) (ot_dsl o)
+  && el_eqb (o_new (sst g)) (ot_new o)
+  && o_ok (sst g).
+
+(* one cold fit with a score threshold [t] (on the integer lattice: the harness rescales the
+   threshold with the data): same stop flag, same state up to the stop.  The threshold enters
+   through the shared [best_new] only — neither _get_active nor the update ([oupd]) takes it *)
+Definition thr_case_ok (X : list (list Z)) br (i0 : nat) (t : thr) (k : nat)
+           (stopped : bool) (o : otrace) : bool :=
+  let '(g, st) := obj_fit_cold X br None None i0 t k in
+  Bool.eqb st stopped && oobs_core_ok g o
+  && (if stopped then true else el_eqb (obj_select_distance g) (ot_seld o)).
+
 (* a session as observed: per call, did it return normally, and if so the attributes *)
 Fixpoint sess_ok (s : option ogst) (cs : list (vcall * option otrace)) : bool :=
   match cs with
